@@ -922,6 +922,29 @@ def realize_mcmc_real(case):
         out["dev_lnlike"] = abs(float(lnl) - want) / max(1.0, abs(want))
         out["dev_obs"] = abs(float(obslp) - want) / max(1.0, abs(want))
         out["ok"] = True
+        # a SECOND setup_mcmc with the same TheJoker / prior / model for another data set (the next star of a loop): the call may be
+        # refused, or the model must now describe THAT data set - it may not quietly go on describing the first one
+        cB = dict(c)
+        cB["t"] = [tt + 0.731 for tt in c["t"]]
+        cB["y"] = [0.5 * yy + 3.0 for yy in c["y"]]
+        dataB, _, _, _, shiftB = build_real(cB, ua)
+        try:
+            with prior.model:
+                init2 = joker.setup_mcmc(dataB, smp)
+            out["second"] = "answered"
+        except Exception as ex2:
+            out["second"] = "refused"
+            out["second_exc"] = type(ex2).__name__
+        if out["second"] == "answered":
+            cB2 = dict(cB)
+            cB2["t"] = [tt - shiftB for tt in cB["t"]]
+            cB2["M0"] = (cB["M0"] - 2 * np.pi * shiftB / cB["P"])
+            m2 = prior.model
+            f2 = pytensor.function(inputs, [m2["model_rv"]], on_unused_input="ignore")
+            rv2 = np.asarray(f2(*[np.float64(np.asarray(init2[nm])) for nm in prior.par_names])[0], dtype=float)
+            curB = go.curve(cB2, x)
+            out["dev_second"] = (float(np.max(np.abs(rv2 / ratio - curB))) / max(1.0, float(np.max(np.abs(curB))))
+                                 if rv2.shape == curB.shape else 1e9)
     except Exception as ex:
         out["exc"] = "%s: %s" % (type(ex).__name__, str(ex)[:200])
     return out
@@ -941,6 +964,8 @@ def offlattice_mcmc(ctx, n):
             worst = max(worst, r[k])
             if not (r[k] <= OFF_TOL):
                 ctx.fail("C11.%s" % clause, r, detail={k: r[k]})
+        if r.get("second") == "answered" and not (r.get("dev_second", 1e9) <= OFF_TOL):
+            ctx.fail("C11.SecondSetupOnTheSameModelDescribesItsOwnData", r, detail={"dev_second": r.get("dev_second")})
         ctx.nontrivial(("realmcmc", r["seed"]))
     ctx.notes["off_lattice_problems"] = len(res)
     ctx.notes["off_lattice_largest_relative_deviation"] = worst
